@@ -1,5 +1,6 @@
 import FlexVerif.Driver.Case
 import FlexVerif.Runtime.Match
+import FlexVerif.Runtime.Buf
 namespace FlexVerif
 
 def parseOp (w : String) : Option Op :=
@@ -72,6 +73,47 @@ def cmdTrace (c : Case) (useSpec : Bool) : IO UInt32 := do
   let out := if s.out.size > rs.maxEvents then s.out.extract 0 rs.maxEvents |>.push "cap" else s.out
   let stdout ← IO.getStdout
   for l in out do stdout.putStrLn l
+  return 0
+
+/-! ### the buffer-level machine (Runtime/Buf.lean) on the emitted tables -/
+
+/-- the emitted automaton as the match loop of a scanner without REJECT sees it -/
+def tableDFA (T : Tables) (interactive : Bool) : Buf.DFA DState where
+  start := fun bol => T.startState 0 bol
+  step := fun s c => match T.step s c with
+    | .jam => none
+    | .bad => none
+    | s' => some s'
+  accept := fun s => match T.label s with
+    | some (r :: _) => some r.toNat
+    | _ => none
+  dead := fun s => interactive &&
+    (List.range T.csize).all fun c => match T.step s (UInt8.ofNat c) with
+      | .jam => true
+      | _ => false
+
+/-- `bufrun`: the sizes of the read requests and the tokens, from buffer size, read schedule and
+    source of the case file -/
+def cmdBufRun (c : Case) : IO UInt32 := do
+  let mut bufsize := 16384
+  let mut sched : List Nat := []
+  let mut src : List UInt8 := []
+  let mut inter := false
+  for (k, ws) in c.extra do
+    match k, ws with
+    | "bufsize", v :: _ => bufsize := v.toNat?.getD 16384
+    | "sched", vs => sched := vs.filterMap String.toNat?
+    | "src", "0" :: rest => src := parseHex (rest.head?.getD "")
+    | "interactive", v :: _ => inter := v == "1"
+    | _, _ => pure ()
+  let D := tableDFA c.tables inter
+  let st := Buf.run D (Buf.schedReader sched) (src.length + 2) (Buf.init bufsize src)
+  let stdout ← IO.getStdout
+  for e in st.out do
+    match e with
+    | .rq n => stdout.putStrLn s!"rq {n}"
+    | .tok r t => stdout.putStrLn s!"m {r} {hexBytes t}"
+    | .jammed => stdout.putStrLn "fatal jammed"
   return 0
 
 end FlexVerif
